@@ -1,8 +1,26 @@
 """Joe (C03, C04, C06, C07, C17): scenario runner + trace inclusion + predicates on the trace."""
 
 
+def replay_premise(case, go, m, s):
+    """C04's theorem (`resume_exact`) is about runs whose replayer conforms to ReplaySpec; that the real replayers
+    do is checked here on Put/Replay/GC/clock histories (grow, wrap, collect, shrink): only what Replay calls
+    without injected Send/Flush failures send is judged (the rest is C08/C09/C18's subject)."""
+    ops = case.split(" ")[-1].split(";")
+    g, sp = go.split(";"), s.split(";")
+    if len(g) != len(ops) or len(sp) != len(ops):
+        return go == m, go == s
+    ok = True
+    for o, a, b in zip(ops, g, sp):
+        f = o.split(":")
+        if f[0] == "R" and f[3] == "-" and f[4] == "0" and a != b:
+            ok = False
+    return go == m or ok, ok
+
+
 def mk_compare(pid):
     def compare(case, go, m, s):
+        if pid == "C04" and (case.startswith("VALID ") or case.startswith("FINITE ")):
+            return replay_premise(case, go, m, s)
         corr = m == "accept"
         if s == "ok":
             return corr, True
@@ -15,6 +33,8 @@ def mk_compare(pid):
 
 
 def hist(case, go):
+    if case[0] in "VF":
+        return ["op:" + case.split(" ")[0]]
     parts = go.split(" ## ")
     if len(parts) != 3:
         return ["malformed"]
@@ -64,6 +84,8 @@ RULE = ("random scenarios (1-9 subscribers with overlapping topic sets, 0-14 pub
 
 
 def nontrivial(case, go):
+    if case[0] in "VF":
+        return "R=S" in go
     return ",pa" in go and ",sa" in go or go.startswith("sa")
 
 
@@ -85,6 +107,9 @@ def register(PROPS):
             "corpus_also": ["JOE"],
             "replay_repeats": 300,
             # the trace recorder relies on these hook call sites (tag verif) being where the model expects them
+            **({"gens": [{"id": "C04", "quick": 2500, "thorough": 60000, "thorough_seeds": 12, "race": True, "gomaxprocs": [1, 2, 16]},
+                         {"id": "C09", "quick": 12000, "thorough": 300000, "thorough_seeds": 8},
+                         {"id": "C08", "quick": 8000, "thorough": 200000, "thorough_seeds": 8}]} if pid == "C04" else {}),
             "facts": {"hooks": ["Joe.Publish:3", "Joe.Shutdown:5", "Joe.Subscribe:7", "Joe.closeSubscribers:1",
                                 "Joe.removeSubscriber:1", "Joe.start:11"]},
         }
